@@ -1,5 +1,7 @@
 import NeoFS.Lemmas.PlacementSpec
 import NeoFS.Lemmas.PlacementVerify
+import NeoFS.Generated.Consts
+import NeoFS.Generated.Footprint
 /-! # C14 — Placement roster is what was committed; signatures need REP distinct members
 
 Property theorems only. Model: `NeoFS/Model/Placement.lean` (byte-keyed storage, real key layout).
@@ -250,5 +252,40 @@ example : verifyPlacementSignatures orc st2 cidA [1] (some [some [sg 1, twin 1, 
 example : submitObjectPut st2 alpha (some meta1) [1] (some [some [sg 1, twin 1], some [sg 4, sg 1]]) = none := by decide
 
 end examples
+
+/-! ## Frame of the model, regenerated: who can write the placement roster
+
+Checked by kernel evaluation over `NeoFS.Generated.Footprint.table` (grouped by contract: `contracts`), the MAY-WRITE footprint recomputed from the Go sources on
+every run (`extract footprint`; `Model/Footprint.lean`). -/
+section Footprint
+open NeoFS.Footprint NeoFS.Generated.Footprint
+
+def fpNodes : Fam := startingWith NeoFS.Generated.container_nodesPrefix_bytes
+def fpReplicas : Fam := startingWith NeoFS.Generated.container_replicasNumberPrefix_bytes
+def fpPending : Fam := startingWith NeoFS.Generated.container_nextEpochNodesPrefix_bytes
+/-- `nnsHasAlias ‖ cid` (43 bytes) shares its first byte `n` with the roster keys `n ‖ cid ‖ vector ‖ key` (67 bytes): at the level
+of leading constants the two families overlap, the key lengths keep them apart; rows inside this family are left out below -/
+def fpAliasFlags : Fam := startingWith NeoFS.Generated.container_nnsHasAliasKey_bytes
+
+/-- The committed roster (keys and REP numbers) is written and deleted by `commitContainerListUpdate` only; the pending roster is
+filled by `addNextEpochNodes` only and emptied by `commitContainerListUpdate` only (the upgrade migration, whose keys are of
+unknown shape, and deployment, which stores the fixed keys `netmapScriptHash`, `nnsScriptHash`, `nnsRoot`, excepted); both methods
+write nothing else. -/
+theorem roster_written_only_by_add_and_commit :
+    onlyByApartFrom contracts "container" "put" fpNodes (·.within fpAliasFlags) ["commitContainerListUpdate", "_deploy"] = true ∧
+    onlyBy contracts "container" "put" fpReplicas ["commitContainerListUpdate"] = true ∧
+    onlyBy contracts "container" "put" fpPending ["addNextEpochNodes"] = true ∧
+    [fpNodes, fpReplicas, fpPending].all
+      (fun f => onlyByApartFrom contracts "container" "delete" f (·.within fpAliasFlags) ["commitContainerListUpdate", "_deploy"]) = true ∧
+    writesWithin contracts "container" "commitContainerListUpdate" [fpNodes, fpReplicas, fpPending] = true ∧
+    writesWithin contracts "container" "addNextEpochNodes" [fpPending] = true := by decide +kernel
+
+example : does contracts "container" "commitContainerListUpdate" "put" fpNodes = true ∧
+    does contracts "container" "commitContainerListUpdate" "put" fpReplicas = true ∧
+    does contracts "container" "commitContainerListUpdate" "delete" fpPending = true ∧
+    does contracts "container" "addNextEpochNodes" "put" fpPending = true := by decide +kernel
+example : onlyByApartFrom (withRow contracts ⟨"container", "setEACL", "put", "", "", NeoFS.Generated.container_nodesPrefix_bytes, false⟩)
+    "container" "put" fpNodes (·.within fpAliasFlags) ["commitContainerListUpdate", "_deploy"] = false := by decide +kernel
+end Footprint
 
 end NeoFS.Props.C14
